@@ -51,7 +51,7 @@ CHECKS = {
              "destination (and, for swap/move, the source) unchanged, given that distinct positions are distinct cells and the two "
              "views share none; C05_logical_order: position k is the same index tuple relative to each side's index bases. "
              "Tie: whole-buffer comparison (guards + both roots, value and moved-from flag per cell) of the library against the "
-             "extracted model on generated (destination view, source view, operation) cases, plus model-independent monitors.",
+             "extracted model on generated (destination view, source view, operation) cases, plus model-independent monitors. Dimensionality 0: C05_rank0_assign_exact (q = p / element / fill / element_moved sets exactly the designated element, every other element of every array and buffer and all extensions stay, nothing is rebound or allocated), C05_rank0_swap_exact, C05_rank0_never_rebinds; C05_rank0_moved_refuted (element_moved() is copied from at rank 0: known finding KF-rank0-element-moved-copies).  Tie: 85 compile probes + h_rank0 (references into buffers with neighbouring elements, into arrays, aliasing included).",
         design_ref="5/C05", technique="Coq proof (loop invariants by induction on the element count; frame) + extracted-model vs "
                                       "library whole-buffer differential"),
     "C07": dict(
@@ -62,7 +62,7 @@ CHECKS = {
              "a<b, a==b, b<a, and == iff values equal), C07_prefix_smaller; all for any ranks (rank 0 = a leaf), extents, layouts (the value "
              "abstraction forgets strides and base). Tie: all operators on three views of equal rank 0..4 with independent layouts, on "
              "owning copies and mixed (owning, double elements, pointer-to-const views, array_cref, const arrays), against the extracted model, plus model-independent monitors (negation, symmetry, "
-             "trichotomy, transitivity, ownership independence). Empty operands: only ==/!= consistency, as the property says.",
+             "trichotomy, transitivity, ownership independence). Empty operands: only ==/!= consistency, as the property says. Dimensionality 0: C07_rank0_compare_is_value_compare (all six operators on every pairing of array / reference / read-only reference / a() / element, const or not, answer the same relation on the two values and touch nothing), C07_rank0_eq_iff, _ne_negation, _lt_is_element_lt, _derived_ops, _strict_order_*, _incomparability_transitive, _trichotomy.  Tie: 152 compile probes (20 needed operand pairings x 6 operators, size-like queries) + h_rank0 with a consistency monitor.",
         design_ref="5/C07", technique="Coq proof (lexicographic order on uniform-depth trees is a strict total order, by induction "
                                       "on depth and lists; shape-regular trees are determined by their flat sequence) + "
                                       "extracted-model vs library differential on operator tables"),
@@ -137,24 +137,9 @@ CHECKS = {
              "elements, other element types are assumed not to change overload resolution; g++ 12; nine view-forming operations "
              "that lose mutability from a mutable receiver and const_iterator::base() are recorded known findings"),
     "C12": dict(
-        text="Coq theorems (all ranks/extents/strides/operation sequences/index tuples of zero-based views reachable by the C01 view "
-             "algebra, via the lay_ok invariant which every projection is shown to preserve): member_cast addresses exactly byte "
-             "offsetof(member) of each source element with the source's shape (C12_member_cast_addr); reinterpret_array_cast<U>() "
-             "keeps every element's address and shape, incl. the separate rank-1 code (C12_reinterpret_addr/_same_size); "
-             "reinterpret_array_cast<U>(n) appends extension [0,n) and element (idx,j) is at byte j*sizeof(U) of element idx "
-             "(C12_reinterpret_extra_dim); element_transformed has the source's shape, reads f(source element) at access time and "
-             "writes through a reference-returning projection changing only that sub-object (C12_transformed, "
-             "C12_transformed_write_through); static/const_array_cast and as_const keep layout and base (C12_cast_identity); "
-             "projections commute with every C01 operation (C12_compose, C12_compose_extra_dim, C12_compose_ops); an array "
-             "constructed from a view/projection has the source's extents and element idx = conv(source element idx) "
-             "(C12_convert_construct). Tie: generated projection programs over struct and complex elements: shape after every step, "
-             "value and byte offset of &proj[idx], root words modified by writes through projections, laziness, constructed arrays.",
-        design_ref="5/C12", technique="Coq proof (scale lemmas on the C01 layout invariant, simulation through step_ok for composition, "
-                                      "row-major successor invariant for the flat copy) + extracted-model vs library differential on "
-                                      "projection programs, compile-time probe, sanitizer run and vm_compute cross-check (thorough)",
-        note="addresses are proved, the identification of the object at an address with the member/sub-object is the C++ object "
-             "model and is observed (values compared word by word), not proved; zero-based views only (C19 for index bases), raw "
-             "pointers and transform_ptr only (C11 for others); no 64-bit overflow; g++ 12/libstdc++, x86-64 little endian"),
+        text="Coq theorems (Properties_C12.v, 24, all ranks/extents/strides/operation sequences/index tuples/iterator traces): member_cast addresses exactly byte offsetof(member) of each source element with the source's shape (C12_member_cast_addr/_from_root); reinterpret_array_cast<U>() keeps every element's address and shape, incl. the separate rank-1 code, which is also proved for any index base (C12_reinterpret_addr/_same_size/_rank1_any_base); reinterpret_array_cast<U>(n) appends extension [0,n) and element (idx,j) is at byte j*sizeof(U) of element idx (C12_reinterpret_extra_dim/_from_root); element_transformed has the source's shape, reads f(source element) at access time and writes through a reference-returning projection changing only that sub-object (C12_transformed, C12_transformed_write_through); static/const_array_cast, as_const and element_transformed keep layout and base on every view, and on every view reachable from a root over arbitrary index extensions the element read is f of the root element the documented index maps prescribe (C12_cast_identity, C12_identity_any_base); projections commute with every C01 operation (C12_compose, C12_compose_extra_dim, C12_compose_ops); the iterator of a projected view after any ++ -- += -= trace is at the computed position and at every position designates what indexing designates = the projection of the source's sub-view at that position, also through it[k] and std::reverse_iterator, for leading iterators (all four projection kinds; any index base for the casts that keep layout and base) and for the flat elements() iterators in canonical order (C12_projected_iterator_lead/_any_base/_flat); an array constructed or assigned from a view/projection of any index base is always defined, has the source's extensions including first indices (empty if the source has no elements) and element idx = conv(source element idx); array(first,last) restarts the leading index at 0, array(elements()) is the flat sequence (C12_convert_construct/_pview/_any_base/_based, C12_convert_iter_pair, C12_convert_flat); member_cast, reinterpret_array_cast<U>(n) and the non-const reinterpret_array_cast<U>() are excluded on views with a non-zero offset exactly where layout_t::scale asserts (C12_scale_offset_assertion). Tie: generated projection programs over struct and complex elements on zero-based and re-based roots: shape after every step, value and byte offset of &proj[idx], root words modified by writes, laziness, iterator walks (leading/row/flat/element-pointer, mutable and const, forwards and backwards) with every dereference compared with the model and with indexing, and arrays made through every converting constructor/assignment of array.hpp (view, array, array_ref, static_array, iterator-pair, flat-range, C-array, rank-0 sources; named/const/moved/temporary; implicit, explicit-only and explicit-assignable element types incl. complex<double>->complex<float>): extensions and elements.",
+        design_ref="5/C12", technique="Coq proof (scale lemmas on the C01 layout invariant, simulation through step_ok for composition, C02's iterator and mixed-radix lemmas lifted to projected views, C19's twin-program theorem for index bases, iterated next_canonical for the flat copy) + extracted-model vs library differential on projection programs (harness compiled per run in 23 parallel translation units against the tree under test), model-independent monitors (iterator vs indexing, it-begin vs token arithmetic, value = object at the printed address, accesses inside the root), three compile-time probes, regression corpus of 5.4k cases, sanitizer run and vm_compute cross-check in the thorough tier",
+        note="Coq 8.16.1 kernel; all 24 theorems print 'Closed under the global context'; addresses and extensions are proved, the identification of the object at an address with the member/sub-object and the numeric value of conv are the C++ object model / arithmetic and are observed (words compared), not proved; hand-written Gallina model tied to /repo by a sampled correspondence (generator distribution and the measured constructor-overload table in the evidence); element-pointer walks of transform_ptr are checked against a three-line expectation of the driver, not a Coq definition; member_cast / reinterpret_array_cast on views with non-zero offsets excluded from the generator (the library asserted offset == 0 there until 1b46e17; C12_scale_offset_assertion states the old exclusion, C20_scale_keeps_extension the repaired behaviour); rank 0 only for array-from-array conversions; raw pointers and transform_ptr only (C11 for others); no 64-bit overflow; g++ 12/libstdc++, x86-64 little endian; the two compile-time defects found here (const rank-1 transformed views could not be iterated; explicit-only element types from views of rank >= 2) are repaired in /repo (7a8161e, 9e89822; patches kept under notes/patches_C12)"),
     "C11": dict(
         text="Theorems C11_pointer_parametric(+_steps), C11_storage_parametric, C11_compare_parametric (Coq, for every pointer type "
              "satisfying the torsor laws padd/pdiff/peq, every root, extents, rank, index base and every program of view "
@@ -227,9 +212,14 @@ CHECKS = {
              "assert true and every divisor non-zero), C20_asserts_silent_rebased_partial (same with index bases, reindexed, "
              "blocked; excluded and refuted: diagonal() on re-based views), C20_iterator_/elements_/assign_silent; "
              "C20_asserts_fire_on_oob, C20_index_guard, C20_guarded_access_in_bounds (chained brackets abort exactly when an index is "
-             "outside its extension, at that level, otherwise the address lies inside the root); C20_assign_fire (every overload "
-             "class of view assignment, move-assignment, swap and array_ref assignment between views of different extents aborts "
-             "before the copy loop), C20_elements_assign_fire, C20_unstopped_assign_fits; C20_ndebug_invariant (results do not "
+             "outside its extension, at that level, otherwise the address lies inside the root); C20_assign_fire (every overload class of view assignment, move-assignment, swap and array_ref assignment betwe"
+             "en ANY two views of different extents aborts before the copy loop), C20_assign_base_irrelevant (the verdict is"
+             " a function of the two layouts only, never of the base pointers), C20_assign_aliasing_exact (two views of ONE "
+             "array reached by two view programs are stopped exactly when their extensions differ), C20_violating_ops_fire ("
+             "taked / dropped beyond size(), halved of an odd size, partitioned by 0 or a non-divisor, sliced with a bound o"
+             "utside the extension abort; the boundary count = size() passes), C20_scale_asserts_silent, C20_scale_keeps_ext"
+             "ension (layout_t::scale of member_cast / reinterpret_array_cast: silent for any index bases, keeps the index r"
+             "ange; C20_scale_old_refuted for the code before 1b46e17), C20_elements_assign_fire, C20_unstopped_assign_fits; C20_ndebug_invariant (results do not "
              "depend on the assertion switch); C20_lifecycle_asserts_silent (every fault-free history of array.hpp entry points in the "
              "documented domain of the lifecycle model -- constructors, copy/move/view/range/converting assignment, swap, clear, "
              "reshape, the three reextent overloads, any rank, index bases, empty and zero-inner-extent cases -- makes every "
@@ -239,34 +229,34 @@ CHECKS = {
              "trivial, rank 3 tracked; fault-free histories incl. re-based extents, reextent, clear, reshape, assignment from views) built with assertions, with "
              "-DNDEBUG and with -DBOOST_MULTI_ASSERT_DISABLE run the generated valid programs (zero-based and re-based) without "
              "abort and with identical output; death tests in forked children (ASan in the thorough tier) compare abort/no-abort "
-             "and the aborting level with the model; fixed probes for the known tensions.",
+             "and the aborting level with the model; 95 fixed probes incl. one valid and one violating call for every assertion site no generated family reaches; assignment death tests also draw ALIASING operands (two views of one array) and whole-root array_refs, with a model-independent monitor on the extensions the library itself reports; valid statements and probes also run with -DNDEBUG and -DBOOST_MULTI_ASSERT_DISABLE and must leave identical buffers; rank-0 arrays must compile and run in all three configurations.",
         design_ref="5/C20", technique="Coq proof (assertion predicates beside every modelled operation; invariants by induction over "
                                       "operation lists; guarded-execution semantics with a configuration switch; lifecycle: assertion predicates over the "
                                       "array objects of Model/Life.v, induction over histories with the ownership invariant) + three-configuration "
-                                      "differential of valid programs + forked death tests compared with the extracted model",
+                                      "differential of valid programs + forked death tests compared with the extracted model; assertion-site coverage measured with a gcov build of the unchanged harness sources (thorough tier, evidence assertion_sites_*)",
         note="assertion messages are recognised by glibc's assert() format; harness roots have non-null base pointers (null-base "
              "assertion: probe + known finding); faulted lifecycle histories and allocator-trait configurations other than the default are not run in three configurations; Coq 8.16.1 kernel, Print "
-             "Assumptions in the evidence; two open known findings (null-base slice of an empty owning array; re-based diagonal = KF-C19-diagonal-rebased)"),
+             "Assumptions in the evidence; open known findings: null-base slice of an empty owning array; re-based diagonal (= KF-C19-diagonal-rebased); 16 of the 132 assertion sites are never evaluated by any input (cannot be instantiated, do not compile, _MSC_VER-only, need an execution policy, or never selected: list in notes/REPORT_C20.txt FOLLOW-UP 3 D); violating calls are run on the default configuration only"),
     "C04": dict(
-        text='Theorems C04_history_invariant (any fault-free history of construction from values / arrays / views / ranges / initializer lists / other element types, copy and move construction and assignment over any prior state, swap, reextent, clear, writes, destruction; any rank >= 1, extents, index bases, trait configuration: no illegal lifetime or storage transition, and afterwards every array is backed by its own live block of exactly num_elements constructed cells), C04_storage_disjoint, C04_layout_matches_block, C04_move_ctor_no_copy, C04_swap_no_copy, C04_self_{copy,move}_assign_noop, C04_copy_ctor_extents, C04_view_ctor_extents, C04_move_leaves_empty_valid, and the VALUE side: C04_value_semantics (after any fault-free history in its documented domain the abstraction of the machine state -- per live array its reported extensions and the flat values of its block; moved-from cells keep their value and never belong to a live array between operations -- equals run_values of the history, the 50-line interpreter over (extensions, values) pairs), C04_operation_refines (the commuting square of each of the 26 operations on any state with the ownership invariant), C04_copy_independent, C04_copy_independent_of_source, C04_assign_from_view_value (views given by the lifecycle model\'s own offsets record, computed by the driver with Model/View.v). Tie: extensions, elements, block classes, allocator ids after every step; disjointness and aliasing monitors; element kinds that separate the type traits.',
+        text='Theorems C04_history_invariant (any fault-free history of construction from values / arrays / views / ranges / initializer lists / other element types, copy and move construction and assignment over any prior state, swap, reextent, clear, writes, destruction; any rank >= 1, extents, index bases, trait configuration: no illegal lifetime or storage transition, and afterwards every array is backed by its own live block of exactly num_elements constructed cells), C04_storage_disjoint, C04_layout_matches_block, C04_move_ctor_no_copy, C04_swap_no_copy, C04_self_{copy,move}_assign_noop, C04_copy_ctor_extents, C04_view_ctor_extents, C04_move_leaves_empty_valid, and the VALUE side: C04_value_semantics (after any fault-free history in its documented domain the abstraction of the machine state -- per live array its reported extensions and the flat values of its block; moved-from cells keep their value and never belong to a live array between operations -- equals run_values of the history, the 50-line interpreter over (extensions, values) pairs), C04_operation_refines (the commuting square of each of the 26 operations on any state with the ownership invariant), C04_copy_independent, C04_copy_independent_of_source, C04_assign_from_view_value (views given by the lifecycle model\'s own offsets record, computed by the driver with Model/View.v). Tie: extensions, elements, block classes, allocator ids after every step; disjointness and aliasing monitors; element kinds that separate the type traits. Dimensionality 0 (Properties_Rank0.v, Model/LifeRank0.v: 27 rank-0 entry points as programs over the same checked micro-steps): C04_rank0_history_invariant (any fault-free history of rank-0 construction / copy / move / assignment from arrays, elements, references and convertible arrays / both swaps / writes / destruction, any element traits), C04_rank0_history_invariant_under_faults, C04_rank0_one_constructed_cell, C04_rank0_storage_disjoint, C04_rank0_value_semantics, C04_rank0_operation_refines, C04_rank0_copy_independent(_of_source), C04_rank0_move_{ctor,assign}_transfers (value arrives, no element copied, source stays a valid one-element array: a rank-0 array is never empty), C04_rank0_swap_exchanges, C04_rank0_self_{copy,move}_assign_noop, C04_rank0_assign_{element,reference}_exact.  Tie: 100 compile probes of every rank-0 spelling C04 needs (g++ and clang++, assertions on and off) + h_rank0 vs the extracted machine over 5 element kinds.',
         design_ref="5/C04", technique='Coq proof (ownership invariant of an executable lifecycle machine, Hoare triples with an exceptional postcondition, induction over histories and loops) + extracted-model vs library differential on random histories with an instrumented element type and allocator',
-        note="Coq 8.16.1 kernel; every property theorem 'Closed under the global context'; one model coq/Model/Life.v (26 entry points as programs over checked micro-steps; element type given by three traits: trivially default constructible, trivially destructible, trivially copyable) shared by C04/C06/C08/C09/C10; the refinement of the machine to the reference interpreter over element VALUES is proved (C04_value_semantics, one commuting square per operation) and additionally evaluated on every generated history; hypotheses: every extensions argument has D dimensions, value lists have the announced length; faults: single injection point per run; rank >= 1 (rank-0 arrays are a separate class specialisation); ExtrOcamlBasic extraction; g++ 12/libstdc++"),
+        note="Coq 8.16.1 kernel; every property theorem 'Closed under the global context'; one model coq/Model/Life.v (26 entry points as programs over checked micro-steps; element type given by three traits: trivially default constructible, trivially destructible, trivially copyable) shared by C04/C06/C08/C09/C10; the refinement of the machine to the reference interpreter over element VALUES is proved (C04_value_semantics, one commuting square per operation) and additionally evaluated on every generated history; hypotheses: every extensions argument has D dimensions, value lists have the announced length; faults: single injection point per run; rank 0 through Model/LifeRank0.v; ExtrOcamlBasic extraction; g++ 12/libstdc++"),
     "C06": dict(
         text='Theorems C06_history_invariant, C06_reextent_same_noop (both overloads: same block, iterators and views stay valid), C06_clear_empty_valid, C06_reshape_flat, C06_reextent_reference_spec (for any old/new extensions the reference function keeps exactly the common index tuples and fills the rest), and on the MACHINE: C06_reextent_spec (reextent(x) / reextent(x, v) from any extensions to any extensions of the same rank with sizes >= 0, incl. empty, zero-inner-extent and re-based ones: the array reports the collapsed new extensions, an index tuple of the new extensions that lies in the old ones keeps its value, every other one reads the fill value or the value-initialised element), C06_reextent_new_elements_value_initialised (value-initialised = 0 for every element type that is not trivially default constructible, whatever its destructor), C06_reshape_flat_values, C06_assign_contents (assign(first,last) / = {nested list}: exactly the requested contents), C06_assign_fill_contents. Tie: element values after every call on generated (old, new) extension pairs, four element kinds.',
         design_ref="5/C06", technique='Coq proof (ownership invariant of an executable lifecycle machine, Hoare triples with an exceptional postcondition, induction over histories and loops) + extracted-model vs library differential on random histories with an instrumented element type and allocator',
-        note="Coq 8.16.1 kernel; every property theorem 'Closed under the global context'; one model coq/Model/Life.v (26 entry points as programs over checked micro-steps; element type given by three traits: trivially default constructible, trivially destructible, trivially copyable) shared by C04/C06/C08/C09/C10; the refinement of the machine to the reference interpreter over element VALUES is proved (C04_value_semantics, one commuting square per operation) and additionally evaluated on every generated history; hypotheses: every extensions argument has D dimensions, value lists have the announced length; faults: single injection point per run; rank >= 1 (rank-0 arrays are a separate class specialisation); ExtrOcamlBasic extraction; g++ 12/libstdc++"),
+        note="Coq 8.16.1 kernel; every property theorem 'Closed under the global context'; one model coq/Model/Life.v (26 entry points as programs over checked micro-steps; element type given by three traits: trivially default constructible, trivially destructible, trivially copyable) shared by C04/C06/C08/C09/C10; the refinement of the machine to the reference interpreter over element VALUES is proved (C04_value_semantics, one commuting square per operation) and additionally evaluated on every generated history; hypotheses: every extensions argument has D dimensions, value lists have the announced length; faults: single injection point per run; rank 0 through Model/LifeRank0.v; ExtrOcamlBasic extraction; g++ 12/libstdc++"),
     "C08": dict(
         text='Theorems C08_lifetime_invariant (every history of every operation in its documented domain: the checked interpreter never reports constructing over a live object, destroying/reading/assigning a raw one, releasing an unknown or dead block, with the wrong size, through an unequal allocator or with live elements; every live block is owned by exactly one array and fully constructed), C08_balanced_at_end, C08_trivial_not_written, C08_reextent_trivial_not_written (reextent without a fill value leaves the new elements of every trivially default constructible element type unwritten: they read the allocator\'s paint; nothing assumed about copy operations).',
         design_ref="5/C08", technique='Coq proof (ownership invariant of an executable lifecycle machine, Hoare triples with an exceptional postcondition, induction over histories and loops) + extracted-model vs library differential on random histories with an instrumented element type and allocator',
-        note="Coq 8.16.1 kernel; every property theorem 'Closed under the global context'; one model coq/Model/Life.v (26 entry points as programs over checked micro-steps; element type given by three traits: trivially default constructible, trivially destructible, trivially copyable) shared by C04/C06/C08/C09/C10; the refinement of the machine to the reference interpreter over element VALUES is proved (C04_value_semantics, one commuting square per operation) and additionally evaluated on every generated history; hypotheses: every extensions argument has D dimensions, value lists have the announced length; faults: single injection point per run; rank >= 1 (rank-0 arrays are a separate class specialisation); ExtrOcamlBasic extraction; g++ 12/libstdc++"),
+        note="Coq 8.16.1 kernel; every property theorem 'Closed under the global context'; one model coq/Model/Life.v (26 entry points as programs over checked micro-steps; element type given by three traits: trivially default constructible, trivially destructible, trivially copyable) shared by C04/C06/C08/C09/C10; the refinement of the machine to the reference interpreter over element VALUES is proved (C04_value_semantics, one commuting square per operation) and additionally evaluated on every generated history; hypotheses: every extensions argument has D dimensions, value lists have the announced length; faults: single injection point per run; rank 0 through Model/LifeRank0.v; ExtrOcamlBasic extraction; g++ 12/libstdc++"),
     "C09": dict(
         text='Theorem C09_fault_safety_partial (every history, every single injection point k at an allocation or element construction/assignment outside three named sites: the exception reaches the caller, nothing leaks, nothing is released twice, every array stays valid, temporaries are unwound), C09_{ctor_leak,reextent_leak,reextent_move}_refuted with vm_compute witnesses reproduced on the library (three known findings: constructors leak their block when an element constructor throws; reextent & leaks its new block; reextent && leaves an invalid array when allocation fails); no-storage operations do not allocate (move construction, swap); assignment through views (row = row, view = view, elements() = elements(); named, temporary and moved forms) is an operation of every history: C09_fault_safety_partial covers it (its fault site is an element assignment), C09_view_assign_keeps_arrays; tie: std::terminate in the harness child is a violation.',
         design_ref="5/C09", technique='Coq proof (ownership invariant of an executable lifecycle machine, Hoare triples with an exceptional postcondition, induction over histories and loops) + extracted-model vs library differential on random histories with an instrumented element type and allocator',
-        note="Coq 8.16.1 kernel; every property theorem 'Closed under the global context'; one model coq/Model/Life.v (26 entry points as programs over checked micro-steps; element type given by three traits: trivially default constructible, trivially destructible, trivially copyable) shared by C04/C06/C08/C09/C10; the refinement of the machine to the reference interpreter over element VALUES is proved (C04_value_semantics, one commuting square per operation) and additionally evaluated on every generated history; hypotheses: every extensions argument has D dimensions, value lists have the announced length; faults: single injection point per run; rank >= 1 (rank-0 arrays are a separate class specialisation); ExtrOcamlBasic extraction; g++ 12/libstdc++"),
+        note="Coq 8.16.1 kernel; every property theorem 'Closed under the global context'; one model coq/Model/Life.v (26 entry points as programs over checked micro-steps; element type given by three traits: trivially default constructible, trivially destructible, trivially copyable) shared by C04/C06/C08/C09/C10; the refinement of the machine to the reference interpreter over element VALUES is proved (C04_value_semantics, one commuting square per operation) and additionally evaluated on every generated history; hypotheses: every extensions argument has D dimensions, value lists have the announced length; faults: single injection point per run; rank 0 through Model/LifeRank0.v; ExtrOcamlBasic extraction; g++ 12/libstdc++"),
     "C10": dict(
         text="Theorems C10_block_stays_with_allocator (every release goes through an allocator equal to the producer: part of the checked interpreter's invariant, for every history and all 16 trait configurations) and the propagation theorems: copy construction uses select_on_container_copy_construction, copy assignment / move assignment / swap replace the allocator exactly under POCCA / POCMA / POCS, allocator-extended constructors use the supplied allocator, moves between unequal non-propagating allocators move elements, never the block. Tie on the trait configurations plus std::pmr arrays over two logging memory resources.",
         design_ref="5/C10", technique='Coq proof (ownership invariant of an executable lifecycle machine, Hoare triples with an exceptional postcondition, induction over histories and loops) + extracted-model vs library differential on random histories with an instrumented element type and allocator',
-        note="Coq 8.16.1 kernel; every property theorem 'Closed under the global context'; one model coq/Model/Life.v (26 entry points as programs over checked micro-steps; element type given by three traits: trivially default constructible, trivially destructible, trivially copyable) shared by C04/C06/C08/C09/C10; the refinement of the machine to the reference interpreter over element VALUES is proved (C04_value_semantics, one commuting square per operation) and additionally evaluated on every generated history; hypotheses: every extensions argument has D dimensions, value lists have the announced length; faults: single injection point per run; rank >= 1 (rank-0 arrays are a separate class specialisation); ExtrOcamlBasic extraction; g++ 12/libstdc++"),
+        note="Coq 8.16.1 kernel; every property theorem 'Closed under the global context'; one model coq/Model/Life.v (26 entry points as programs over checked micro-steps; element type given by three traits: trivially default constructible, trivially destructible, trivially copyable) shared by C04/C06/C08/C09/C10; the refinement of the machine to the reference interpreter over element VALUES is proved (C04_value_semantics, one commuting square per operation) and additionally evaluated on every generated history; hypotheses: every extensions argument has D dimensions, value lists have the announced length; faults: single injection point per run; rank 0 through Model/LifeRank0.v; ExtrOcamlBasic extraction; g++ 12/libstdc++"),
 }
 
 NOT_YET = {
